@@ -79,6 +79,7 @@ pub fn worker_main(prop: Prop, tier: Tier, seed: u64, start: u64, stride: u64, e
     let out = std::io::stdout();
     let mut i = start;
     let mut obs_all = crate::tape::FNV0;
+    let mut done = 0u64;
     while i < end {
         {
             let mut o = out.lock();
@@ -114,6 +115,13 @@ pub fn worker_main(prop: Prop, tier: Tier, seed: u64, start: u64, stride: u64, e
             }
         }
         i += stride;
+        done += 1;
+        if done % 512 == 0 {
+            // checkpoint: if this process dies later, the coordinator still has these counters
+            let e = json!({"counters": stats.counters, "samples": stats.samples, "obs": format!("{obs_all:016x}"), "partial": true});
+            let mut o = out.lock();
+            let _ = writeln!(o, "E {e}");
+        }
     }
     CURRENT_RUN.store(u64::MAX, std::sync::atomic::Ordering::Relaxed);
     if let Some(f) = distinct_file {
@@ -221,6 +229,39 @@ fn spawn_worker(prop: Prop, tier: Tier, seed: u64, start: u64, stride: u64, end:
         .spawn()
 }
 
+/// keep the panic message of a foreign std (the plugin has its own copy of std and its
+/// own panic hook) plus the last few lines of a dead worker's stderr
+fn stderr_digest(e: &str) -> String {
+    let lines: Vec<&str> = e.lines().collect();
+    let mut keep: Vec<String> = Vec::new();
+    if let Some(i) = lines.iter().rposition(|l| l.contains("panicked at")) {
+        keep.push(lines[i].trim().to_string());
+        if let Some(n) = lines.get(i + 1) {
+            keep.push(n.trim().to_string());
+        }
+    }
+    for l in lines.iter().rev().take(6).rev() {
+        keep.push(l.to_string());
+    }
+    keep.join("\n")
+}
+
+/// the violation for a process that died without a record from our own panic hook
+fn no_hook_violation(prop: Prop, digest: &str) -> Violation {
+    let at = digest
+        .lines()
+        .next()
+        .filter(|l| l.contains("panicked at"))
+        .map(|l| l.split("panicked at").nth(1).unwrap_or("").trim().split(':').next().unwrap_or("").trim_start_matches("/repo/").to_string())
+        .unwrap_or_else(|| "unknown".into());
+    Violation {
+        prop: if prop == Prop::C15 { Prop::C15 } else { Prop::C07 },
+        class: if prop == Prop::C15 { "plugin.trap".into() } else { "trap.abort".into() },
+        features: format!("no-hook-record;at={at}"),
+        detail: format!("process died without a panic record (abort inside the plugin, or a fatal signal); stderr: {}", digest.replace('\n', " | ")),
+    }
+}
+
 fn collect(mut child: std::process::Child) -> WorkerOut {
     let stdout = child.stdout.take().unwrap();
     let mut stderr = child.stderr.take().unwrap();
@@ -254,8 +295,7 @@ fn collect(mut child: std::process::Child) -> WorkerOut {
     let status = child.wait();
     w.status_ok = status.map(|s| s.success()).unwrap_or(false);
     let e = errt.join().unwrap_or_default();
-    let tail: Vec<&str> = e.lines().rev().take(12).collect();
-    w.stderr_tail = tail.into_iter().rev().collect::<Vec<_>>().join("\n");
+    w.stderr_tail = stderr_digest(&e);
     w
 }
 
@@ -271,7 +311,7 @@ pub fn exec_batch(prop: Prop, tier: Tier, tapes: &[Vec<u32>]) -> Vec<Option<Valu
             .arg(if tier == Tier::Quick { "quick" } else { "thorough" })
             .stdin(Stdio::piped())
             .stdout(Stdio::piped())
-            .stderr(Stdio::null())
+            .stderr(Stdio::piped())
             .spawn()
         {
             Ok(c) => c,
@@ -295,6 +335,12 @@ pub fn exec_batch(prop: Prop, tier: Tier, tapes: &[Vec<u32>]) -> Vec<Option<Valu
             })
         };
         let so = child.stdout.take().unwrap();
+        let mut se = child.stderr.take().unwrap();
+        let errt = std::thread::spawn(move || {
+            let mut s = String::new();
+            let _ = se.read_to_string(&mut s);
+            s
+        });
         let mut got_here = 0usize;
         let mut panic_rec: Option<Value> = None;
         let mut started = false;
@@ -313,6 +359,7 @@ pub fn exec_batch(prop: Prop, tier: Tier, tapes: &[Vec<u32>]) -> Vec<Option<Valu
         }
         let _ = child.wait();
         let _ = feeder.join();
+        let err_text = errt.join().unwrap_or_default();
         idx += got_here;
         if idx < tapes.len() {
             // the child died on tapes[idx]
@@ -324,7 +371,7 @@ pub fn exec_batch(prop: Prop, tier: Tier, tapes: &[Vec<u32>]) -> Vec<Option<Valu
                     Some(json!({"kind": kind, "v": runner::violation_json(&v), "tape": tapes[idx], "marks": [], "aborted": true}))
                 }
                 None => {
-                    let v = Violation { prop: if prop == Prop::C15 { Prop::C15 } else { Prop::C07 }, class: if prop == Prop::C15 { "plugin.trap".into() } else { "trap.abort".into() }, features: "no-hook-record".into(), detail: "worker process died without a panic record (abort inside the plugin, or a fatal signal)".into() };
+                    let v = no_hook_violation(prop, &stderr_digest(&err_text));
                     let kind = if v.prop == prop { "violation" } else { "foreign" };
                     Some(json!({"kind": kind, "v": runner::violation_json(&v), "tape": tapes[idx], "marks": [], "aborted": true}))
                 }
@@ -683,15 +730,18 @@ pub fn check_main(prop: Prop, tier: Tier, seed: u64) -> i32 {
                 }
                 let _ = std::fs::remove_file(&df);
             }
-            match w.end {
+            match w.end.clone() {
                 Some(e) if w.status_ok => ends.push(e),
                 _ => {
+                    if let Some(e) = w.end.clone() {
+                        ends.push(e); // last checkpoint of a worker that died later
+                    }
                     // the worker died: pin the aborting run and continue after it
                     aborts += 1;
                     if let Some(run) = w.last_started {
                         let v = match &w.panic_rec {
                             Some(p) => abort_violation(prop, p),
-                            None => Violation { prop: if prop == Prop::C15 { Prop::C15 } else { Prop::C07 }, class: if prop == Prop::C15 { "plugin.trap".into() } else { "trap.abort".into() }, features: "no-hook-record".into(), detail: format!("worker died without a panic record; stderr tail:\n{}", w.stderr_tail) },
+                            None => no_hook_violation(prop, &w.stderr_tail),
                         };
                         stats.bump("runs.aborted-worker");
                         if v.prop == prop {
